@@ -61,6 +61,45 @@ def prim_writer_path(fn, n):
     return None
 
 
+def spawn_group(prog, f):
+    """does f, its enclosing function or one of its lambdas run a command line?"""
+    group = [f]
+    if f.d.get("lambdaOf") in prog.funcs:
+        group.append(prog.funcs[f.d["lambdaOf"]])
+    group += [prog.funcs[x["lam"]] for x in f.walk() if x["k"] == "LambdaExpr" and x["lam"] in prog.funcs]
+    return any(any(True for _ in g.calls(SPAWN)) for g in group)
+
+
+def chains_of(f):
+    """[(operands, node)] of every maximal stream << chain and std::string + chain"""
+    out = []
+    for n in f.walk():
+        if n["k"] == "CXXOperatorCallExpr" and n.get("op") == "<<":
+            par = f.parent.get(n["i"])
+            if par is not None and par["k"] == "CXXOperatorCallExpr" and par.get("op") == "<<" and strip(kids(par)[1]) is n:
+                continue
+            ch = stream_chain(n)
+            if ch:
+                out.append((ch[1:], n))
+        elif n["k"] == "CXXOperatorCallExpr" and n.get("op") == "+" and "basic_string" in f.type(n):
+            par = f.parent.get(n["i"])
+            if par is not None and par["k"] == "CXXOperatorCallExpr" and par.get("op") == "+":
+                continue
+            out.append((plus_chain(n), n))
+    return out
+
+
+def outflag_operands(f):
+    """operands that follow an output flag (-o, >, /OUT:) in a command line built by f"""
+    res = []
+    for ops, n in chains_of(f):
+        for i, o in enumerate(ops):
+            lit = literal(o)
+            if isinstance(lit, str) and OUTFLAG.search(lit) and i + 1 < len(ops):
+                res.append((lit, ops[i + 1]))
+    return res
+
+
 def wrapper_summaries(prog):
     """{function key: set(param index)} : parameters that flow (as names) into a file-creating call"""
     summ = {}
@@ -92,6 +131,14 @@ def wrapper_summaries(prog):
                         if path_derived(p, derive_locals(f, {pid})):
                             summ.setdefault(f.key, set()).add(i)
                             changed = True
+            # a parameter that names the output of a command line run by this function
+            if rounds == 1 and spawn_group(prog, f):
+                for lit, opnd in outflag_operands(f):
+                    for i, pid in enumerate(pids):
+                        if path_derived(opnd, derive_locals(f, {pid})):
+                            if i not in summ.get(f.key, ()):
+                                summ.setdefault(f.key, set()).add(i)
+                                changed = True
     return summ
 
 
@@ -178,23 +225,9 @@ def run(ctx):
                      "writes the staged temp name" if ok else
                      "creates/truncates a file under its final name (not the temp name of an enclosing io::stageFile(s) callback); a kill during the write leaves a partial file that later runs treat as complete")
         # ---------------- R1c: command lines ---------------------------------------
-        for n in f.walk():
-            ch = None
-            if n["k"] == "CXXOperatorCallExpr" and n.get("op") == "<<":
-                par = f.parent.get(n["i"])
-                if par is not None and par["k"] == "CXXOperatorCallExpr" and par.get("op") == "<<" and strip(kids(par)[1]) is n:
-                    continue  # inner part of a longer chain
-                ch = stream_chain(n)
-                ops = ch[1:] if ch else None
-            elif n["k"] == "CXXOperatorCallExpr" and n.get("op") == "+" and "basic_string" in f.type(n):
-                par = f.parent.get(n["i"])
-                if par is not None and par["k"] == "CXXOperatorCallExpr" and par.get("op") == "+":
-                    continue
-                ops = plus_chain(n)
-            else:
-                continue
-            if not ops:
-                continue
+        if not spawn_group(prog, f):
+            continue
+        for ops, n in chains_of(f):
             for i, o in enumerate(ops):
                 lit = literal(o)
                 if not isinstance(lit, str):
@@ -207,6 +240,10 @@ def run(ctx):
                 if OUTFLAG.search(lit) and i + 1 < len(ops):
                     nxt = ops[i + 1]
                     ok = bool(temp_derived) and path_derived(nxt, temp_derived)
+                    # the output is this function's own path parameter: obligation shifts to the callers (checked by R1)
+                    shifted = any(path_derived(nxt, derive_locals(f, {pids[j]})) for j in own_wrapper if j < len(pids))
+                    if shifted:
+                        continue
                     R.ob("C08-R1c", ok, _fname(prog, f), "outflag:%s -> %s" % (lit.strip(), render(nxt, ids=False)), f.site(nxt),
                          "output operand is the staged temp name" if ok else
                          "the compiler/command output goes to a final name instead of the staged temp name")
